@@ -156,12 +156,15 @@ theorem forest_of_becomes_copy {s : Seg} (hF : Forest s) {k : Nat} (hk : Real s 
 /-! ## `delete_`: the slot leaves the tree -/
 
 theorem detach_forest {s : Seg} (hF : Forest s) {a : Nat} (ha : Real s a) :
-    Forest (s.detach a) ∧ (s.detach a).free = s.free ∧ (∀ j, ((s.detach a).get j).copied = (s.get j).copied) := by
+    Forest (s.detach a) ∧ (s.detach a).free = s.free ∧ (∀ j, ((s.detach a).get j).copied = (s.get j).copied) ∧
+      (∀ j, ¬ Real s j → ((s.detach a).get j).parent = (s.get j).parent) := by
   unfold Seg.detach
   simp only []
-  obtain ⟨hF1, _, hr1, hf1, hc1, _⟩ := unparent_forest hF ha
-  obtain ⟨hF2, _, _, hf2, hc2⟩ := detachChildren_forest hF1 hr1
-  exact ⟨hF2, by rw [hf2, hf1], fun j => by rw [hc2, hc1]⟩
+  obtain ⟨hF1, _, hr1, hf1, hc1, _, hp1⟩ := unparent_forest hF ha
+  obtain ⟨hF2, _, _, hf2, hc2, hp2⟩ := detachChildren_forest hF1 hr1
+  refine ⟨hF2, by rw [hf2, hf1], fun j => by rw [hc2, hc1], fun j hj => ?_⟩
+  have hja : j ≠ a := fun hh => hj (hh ▸ ha)
+  rw [hp2 j (by unfold Real; rw [hc1]; exact hj), hp1 j hja]
 
 /-! ## `put_copy` -/
 
@@ -219,7 +222,8 @@ theorem copySlot_forest {s : Seg} (hF : Forest s) {i rf : Nat} (hi : Real s i) (
     (hc : (s.get i).child = none) (hif : i ∉ s.free) (his : i < s.slots.size)
     (hgood : ∀ p, (s.get rf).parent = some p → Real s p ∧ p ∉ s.free ∧ p < s.slots.size) :
     Forest ((s.copySlot i rf).unmark i) ∧ ((s.copySlot i rf).unmark i).free = s.free ∧
-      (∀ j, (((s.copySlot i rf).unmark i).get j).copied = (s.get j).copied) := by
+      (∀ j, (((s.copySlot i rf).unmark i).get j).copied = (s.get j).copied) ∧
+      (∀ j, j ≠ i → (((s.copySlot i rf).unmark i).get j).parent = (s.get j).parent) := by
   have hsib : (s.get i).sibling = none := hF.root i hi hp
   have hcop : (s.get i).copied = false := hi
   -- the state after the `memcpy`
@@ -237,7 +241,7 @@ theorem copySlot_forest {s : Seg} (hF : Forest s) {i rf : Nat} (hi : Real s i) (
       · rw [hji, get_upd_self _ _ _ (by simpa using his), g1i]
         exact ⟨by show (s.get rf).parent = _; rw [hrp, hp], by show none = _; rw [hc], by show none = _; rw [hsib], by show false = _; rw [hcop]⟩
       · rw [get_upd_ne _ _ _ _ hji, g1 j hji]; exact ⟨rfl, rfl, rfl, rfl⟩
-    exact ⟨forest_congr ts hF, ts.free, fun j => (ts.fld j).2.2.2⟩
+    exact ⟨forest_congr ts hF, ts.free, fun j => (ts.fld j).2.2.2, fun j _ => (ts.fld j).1⟩
   | some p =>
     simp only []
     obtain ⟨hpr, hpf, hps⟩ := hgood p hrp
@@ -253,7 +257,7 @@ theorem copySlot_forest {s : Seg} (hF : Forest s) {i rf : Nat} (hi : Real s i) (
         · rw [hji, get_upd_self _ _ _ (by simpa using his), get_upd_self _ _ _ (by simpa using his), g1i]
           exact ⟨by show none = _; rw [hp], by show none = _; rw [hc], by show none = _; rw [hsib], by show false = _; rw [hcop]⟩
         · rw [get_upd_ne _ _ _ _ hji, get_upd_ne _ _ _ _ hji, g1 j hji]; exact ⟨rfl, rfl, rfl, rfl⟩
-      exact ⟨forest_congr ts hF, ts.free, fun j => (ts.fld j).2.2.2⟩
+      exact ⟨forest_congr ts hF, ts.free, fun j => (ts.fld j).2.2.2, fun j _ => (ts.fld j).1⟩
     · obtain ⟨l, hk⟩ := hF.kids p hpr
       have hil : i ∉ l := fun hh => by rw [(hk.mem i hh).1] at hp; cases hp
       -- the chain of `p` after the `memcpy`
@@ -279,7 +283,8 @@ theorem copySlot_forest {s : Seg} (hF : Forest s) {i rf : Nat} (hi : Real s i) (
         · rw [get_upd_ne _ _ _ _ hji, get_upd_ne _ _ _ _ hji,
             appendTo_get s (s.upd i fun si => si.copyFrom (s.get rf)) p i l (by simp) j (g1 j hji)]
           exact ⟨rfl, rfl, rfl, rfl⟩
-      refine ⟨forest_congr ts hF3, by rw [ts.free, hatt.2.free], fun j => ?_⟩
-      rw [(ts.fld j).2.2.2, hatt.2.cop j]
+      refine ⟨forest_congr ts hF3, by rw [ts.free, hatt.2.free], fun j => ?_, fun j hj => ?_⟩
+      · rw [(ts.fld j).2.2.2, hatt.2.cop j]
+      · rw [(ts.fld j).1, hatt.2.par j, if_neg hj]
 
 end GrVerif.Seg
